@@ -216,7 +216,13 @@ pub fn run_scenario(sc: &Scenario, schema: &Arc<Schema>) -> Trace {
             }
         };
         for (i, call) in sc.calls.iter().enumerate() {
-            shared.lock().unwrap().begin_call();
+            let idle_close = shared.lock().unwrap().begin_call();
+            if idle_close {
+                // let the serving tasks close their connections before the client writes
+                for _ in 0..4 {
+                    tokio::task::yield_now().await;
+                }
+            }
             let t0 = tokio::time::Instant::now();
             let res: Guarded<CallResult> = guard(async {
                 match call {
